@@ -10,13 +10,13 @@ package spynode
 
 //@ func (*Node).GetHeaders
 //@   serves C09
-//@   requires node.blocks != nil && internalStorage.InvMem(node.blocks) && internalStorage.InvFull(node.blocks) && maxCount >= 0 && maxCount < 1000000000
+//@   requires node.blocks != nil && internalStorage.InvMem(node.blocks) && internalStorage.InvFull(node.blocks) && maxCount >= 0 && maxCount < 1000000000 && !held(node.blocks.mutex)
 //@   ensures shape: result1 == nil && height >= -1 ==> result0 != nil && result0.StartHeight == uint32(startOf(node, height, maxCount)) && result0.RequestHeight == int32(height)
 //@        && len(result0.Headers) == countOf(node, height, maxCount)
 //@   ensures content: result1 == nil && height >= -1 ==> forall(k, 0, len(result0.Headers), result0.Headers[k] != nil && *result0.Headers[k] == internalStorage.Hdr(node.blocks, startOf(node, height, maxCount) + k))
 //@   ensures negative_empty: result1 == nil && height < -1 ==> len(result0.Headers) == 0
 //@   ensures frame: same(node.blocks, node.blocks.height, node.blocks.lastHeaders) && oldrows(node.blocks.lastHeaders)
-//@   loop 0 invariant startHeight <= i && i <= startHeight + maxCount && same(node.blocks, node.blocks.height, node.blocks.lastHeaders) && oldrows(node.blocks.lastHeaders)
+//@   loop 0 invariant !held(node.blocks.mutex) && startHeight <= i && i <= startHeight + maxCount && same(node.blocks, node.blocks.height, node.blocks.lastHeaders) && oldrows(node.blocks.lastHeaders)
 //@   loop 0 invariant height >= -1 ==> startHeight == startOf(node, height, maxCount) && startHeight >= 0 && len(headers) == i - startHeight && (i > startHeight ==> i <= tipOf(node) + 1)
 //@   loop 0 invariant height < -1 ==> len(headers) == 0 && i == startHeight && startHeight == height
 //@   loop 0 invariant forall(k, 0, len(headers), headers[k] != nil && *headers[k] == internalStorage.Hdr(node.blocks, startHeight + k))
